@@ -539,15 +539,25 @@ theorem Fwd.concat_spec {α} {xs : List (Tensor α)} {y : Tensor α} {dim : Nat}
         have hk2 : ((b * up ys dim + c) * (lo ys dim * xs[m].shape.get dim) + (a + lo ys dim * k)) %
             (lo ys dim * xs[m].shape.get dim) / lo ys dim = k := by
           have hr : a + lo ys dim * k < lo ys dim * xs[m].shape.get dim := lt_mul_of_lt ha hk
-          rw [Nat.mul_comm (b * up ys dim + c), Nat.mul_add_mod, Nat.mod_eq_of_lt hr,
-            Nat.add_mul_div_left _ _ hL, Nat.div_eq_of_lt ha]; omega
+          have ⟨i1, _, _⟩ := seq3_index (B := up ys dim) (C := lo ys dim * xs[m].shape.get dim) (b := b) hc' hr
+          rw [i1, Nat.add_mul_div_left _ _ hL, Nat.div_eq_of_lt ha, Nat.zero_add]
         rw [hk2] at hkeq
-        omega)
+        have h3 : ((xs.take p').map (·.shape.get dim)).sum ≤ ((xs.take m).map (·.shape.get dim)).sum + k := by
+          rw [← hkeq]; exact Nat.le_add_right _ _
+        exact absurd (Nat.lt_of_lt_of_le (Nat.add_lt_add_left hk _) hmono) (Nat.not_lt.mpr h3))
     rw [em] at key
     simp only at key
     rw [s2, s3] at key
     simp only [at4_eq, startOf, ← List.map_take, List.map_map, Function.comp_def, share]
     rw [← key]
+
+/-- Unfinished: `permute_dims(x, perm)`: axis `k` of the result is axis `perm[k]` of
+`x`, `y[j] = x[i]` with `j = perm.map i` (multi-indices).  Missing: the
+mixed-radix lemma relating `permJ` to `Spec.Move.flat`.  Checked on the
+implementation against the multi-index oracle of props/_kmove.py. -/
+def Fwd.permute_dims_spec_full : Prop :=
+  ∀ (x y : Tensor Int) (perm : List Nat) (raw : Nat → Int), WF x.shape → permuteFw x perm raw = .ok y →
+    IsPermuted ((List.range perm.length).map x.shape.get) perm x.data y.data x.shape.volume
 
 /-- `copy(x)` / `Device::copy_tensor`, also for a tensor of another device -/
 theorem Fwd.copy_spec {α} {x y : Tensor α} {raw : Nat → α} (h : copyTensor x raw = .ok y) :
